@@ -123,7 +123,10 @@ def run_case(ctx, kind_, idx):
                 per = bool(rng.integers(0, 2))
                 xin, _k = gen.as_container(rng, x, allow=("array", "list", "int"))
                 info.update({"x": x if len(x) <= 10 else len(x), "periodic": per})
-                gx, gy = U.append_one_sample(xin, list(y) if rng.integers(0, 2) else y, make_periodic=per)
+                if not per and rng.integers(0, 2):
+                    gx, gy = U.append_one_sample(xin, list(y) if rng.integers(0, 2) else y)      # documented default
+                else:
+                    gx, gy = U.append_one_sample(xin, list(y) if rng.integers(0, 2) else y, make_periodic=per)
                 wx, wy = H.append_one_sample([float(v) for v in x], [float(v) for v in y], per)
                 if not (isinstance(gx, np.ndarray) and isinstance(gy, np.ndarray)):
                     return fail("not_arrays")
